@@ -106,6 +106,11 @@ pub fn finish(
     nontrivial: bool,
     summary: Value,
 ) -> RunOutput {
+    if std::env::var("TRSIM_DUMP").is_ok() {
+        for r in &w.log {
+            eprintln!("{:>5} t={:>9} task={:>3} step={:>4} {:?}", r.seq, r.t_us, r.task, r.step, r.ev);
+        }
+    }
     let mut violations: Vec<_> = w
         .violations
         .iter()
